@@ -670,7 +670,11 @@ func (g *gmectx) errorInfeasible(r *ssa.Return, firstEffect ssa.Instruction, isE
 // every select case falls through to the end of the function (no loop).
 func callBoundedGoroutine(gi *ssa.Go, parent *ssa.Function) (bool, string) {
 	cl := calleeOf(&gi.Call).Static
-	if cl == nil || cl.Parent() != parent {
+	if cl == nil || len(cl.Blocks) == 0 {
+		return false, ""
+	}
+	isClosure := cl.Parent() == parent
+	if !isClosure && (cl.Parent() != nil || cl.Pkg != parent.Pkg) {
 		return false, ""
 	}
 	if len(loopsOf(cl)) > 0 {
@@ -691,32 +695,72 @@ func callBoundedGoroutine(gi *ssa.Go, parent *ssa.Function) (bool, string) {
 		if st.Dir != types.RecvOnly {
 			continue
 		}
-		// the channel is a captured local of the parent …
-		var cell *ssa.Alloc
-		for _, o := range origins(st.Chan) {
-			_ = o
-		}
-		if u, ok := stripConv(st.Chan).(*ssa.UnOp); ok {
+		// the channel, as the spawning function sees it: a captured local (closure) or the argument bound to the
+		// parameter the goroutine's function selects on (a named function started with `go f(stop)`)
+		var inParent ssa.Value
+		if u, ok := stripConv(st.Chan).(*ssa.UnOp); ok && isClosure {
 			if fv, isFV := u.X.(*ssa.FreeVar); isFV {
 				if b := freeVarBinding(fv); b != nil {
-					cell, _ = b.(*ssa.Alloc)
+					if cell, isAl := b.(*ssa.Alloc); isAl && cell.Parent() == parent {
+						inParent = cell
+					}
 				}
 			}
 		}
-		if cell == nil || cell.Parent() != parent {
-			continue
-		}
-		made := false
-		for _, s := range storesTo(cell) {
-			if _, isMk := s.Val.(*ssa.MakeChan); isMk {
-				made = true
-			} else {
-				made = false
-				break
+		if prm, ok := stripConv(st.Chan).(*ssa.Parameter); ok && !isClosure {
+			for i, q := range cl.Params {
+				if q == prm && i < len(gi.Call.Args) {
+					inParent = gi.Call.Args[i]
+				}
 			}
 		}
-		if !made {
+		if inParent == nil {
 			continue
+		}
+		// … it is a channel made by the parent …
+		var made []ssa.Value
+		okMade := true
+		if cell, isCell := inParent.(*ssa.Alloc); isCell {
+			for _, s := range storesTo(cell) {
+				if _, isMk := s.Val.(*ssa.MakeChan); isMk {
+					made = append(made, s.Val)
+				} else {
+					okMade = false
+				}
+			}
+		} else {
+			for _, o := range origins(inParent) {
+				if _, isMk := o.Val.(*ssa.MakeChan); isMk {
+					made = append(made, o.Val)
+				} else {
+					okMade = false
+				}
+			}
+		}
+		if !okMade || len(made) == 0 {
+			continue
+		}
+		isMine := func(v ssa.Value) bool {
+			if cell, isCell := inParent.(*ssa.Alloc); isCell {
+				u, ok := stripConv(v).(*ssa.UnOp)
+				return ok && u.X == ssa.Value(cell)
+			}
+			os := origins(v)
+			if len(os) == 0 {
+				return false
+			}
+			for _, o := range os {
+				hit := false
+				for _, m := range made {
+					if o.Val == m {
+						hit = true
+					}
+				}
+				if !hit {
+					return false
+				}
+			}
+			return true
 		}
 		// … closed by a deferred close in the parent, registered no later than the go statement
 		closed := false
@@ -725,7 +769,7 @@ func callBoundedGoroutine(gi *ssa.Go, parent *ssa.Function) (bool, string) {
 			if !isD || calleeOf(&d.Call).Builtin != "close" {
 				return
 			}
-			if u, ok := stripConv(d.Call.Args[0]).(*ssa.UnOp); ok && u.X == ssa.Value(cell) && (dominatesInstr(d, gi) || registeredRightAfter(gi, d)) {
+			if isMine(d.Call.Args[0]) && (dominatesInstr(d, gi) || registeredRightAfter(gi, d)) {
 				closed = true
 			}
 		})
